@@ -11,7 +11,8 @@ const OrdinalsPrefix = "ord"
 
 // Inscribe adds an output to the transaction with an inscription.
 func (tx *Tx) Inscribe(ia *bscript.InscriptionArgs) error {
-	s := *ia.LockingScriptPrefix // deep copy
+	// copy the prefix: appending to it would write into the caller's buffer
+	s := append(bscript.Script{}, *ia.LockingScriptPrefix...)
 
 	// add Inscription data
 	// (Example: 	OP_FALSE
